@@ -288,6 +288,7 @@ def run(ctx):
             search(ctx, exe)
         tso_pass(ctx, exe)
     hazard_layer(ctx)
+    core.init_contract(ctx, ["mpmc_fifo", "hazard_pointer"])  # rt/h_init.c: real init on dirty memory
     core.finish(ctx, extra_assumptions=ASSUME)
 
 
@@ -341,6 +342,8 @@ def corpus(ctx):
 
 
 def replay(ctx, payload):
+    if payload.get("harness") == "h_init":
+        return core.replay_init(ctx, payload)
     if str(payload.get("harness", "")).endswith("+tso"):
         exe = build(ctx)
         c = payload.get("case")
